@@ -42,7 +42,7 @@ m = {
     "setup_cmd": "./scripts/setup.sh",
     "hooks": {
         "guard": "verif",
-        "enable": "go build tag: the harness is compiled with `go test -tags verif`; every harness file carries //go:build verif. No source hooks were added to /repo (all observations are taken at public boundaries: ABCI, exported keepers, raw store iteration).",
+        "enable": "go build tag: the harness is compiled with `go test -tags verif`; every harness file carries //go:build verif. No source hooks were added to /repo (all observations are taken at public boundaries: ABCI, exported keepers, raw store iteration; C06 additionally reads - never replaces - baseapp's installed ante handler through reflection to hand it constructed transactions).",
         "baseline_off_cmd": "./scripts/baseline_off.sh",
         "source_commits": hooks_commits,
         "add_only": True,
